@@ -56,8 +56,8 @@ def statementArms : List (List TokenKind × Prog) := [
   ([.MultiClass], call .multi_class)]
 
 def mcStatementArms : List (List TokenKind × Prog) := [
-  ([.Assert], call .assert_), ([.Def], call .def_), ([.Defm], call .defm), ([.Dump], call .dump),
-  ([.Foreach], call .foreach), ([.Let], call .let_), ([.If], call .if_)]
+  ([.Assert], call .assert_), ([.Def], call .def_), ([.Defm], call .defm), ([.Defvar], call .defvar),
+  ([.Dump], call .dump), ([.Foreach], call .foreach), ([.Let], call .let_), ([.If], call .if_)]
 
 def typeArms : List (List TokenKind × Prog) := [
   ([.Bit], call .bit_type), ([.Int], call .int_type), ([.String], call .string_type),
@@ -114,7 +114,7 @@ def defs : Defs
   | .multi_class_statements => seqs [startNode .StatementList, call .multi_class_statement,
       whileNotAt [.RBrace] (call .multi_class_statement), expect .RBrace none, finishNode]
   | .multi_class_statement => matchPeek mcStatementArms
-      (errorAndEat "expected 'assert', 'def', 'defm', 'dump', 'foreach', 'let', or 'if' in multiclass body")
+      (errorAndEat "expected 'assert', 'def', 'defm', 'defvar', 'dump', 'foreach', 'let', or 'if' in multiclass body")
   | .defm => seqs [startNode .Defm, assertTok .Defm, call .object_name, call .parent_class_list,
       expect .Semi (some "expected ';' at end of defm"), finishNode]
   | .defset => seqs [startNode .Defset, assertTok .Defset, call .type_,
